@@ -624,14 +624,31 @@ def check_lemma(db, s, lem):
                 return False
             return inline.default_policy(db_, caller, term, callee)
         keep.__name__ = "c04_keep_" + short(f.name)
-        for cb, cbi, ct in cs:
-            if under(cb, cbi):
-                continue
-            ib = inline.inlined(db, cb, keep)
-            inl = [xbi for xbi, xt in ib.calls() if callee_def(xt) == f.name]
-            if not inl or not all(under(ib, xbi) for xbi in inl):
-                return "%s is called at %s where %s(%s) is not known to have answered Some" % (short(f.name), cb.loc(cbi), lem["selector"], lem["const"])
-        return None
+        def fn_under(fn, depth):
+            """every call of fn happens under the selector's Some answer - at the call site itself, or because the calling function is a
+            crate-internal stage that is itself only called under it"""
+            sites = [c for c in db.callers_of(fn.name) if "::tests::" not in c[0].name]
+            if not sites:
+                return "no caller of %s found" % fn.name
+
+            def keep_(db_, caller, term, callee, _fn=fn):
+                if callee is not None and db_.root_of(callee).name == _fn.name:
+                    return False
+                return inline.default_policy(db_, caller, term, callee)
+            keep_.__name__ = "c04_keep_" + short(fn.name)
+            for cb, cbi, ct in sites:
+                if under(cb, cbi):
+                    continue
+                ib = inline.inlined(db, cb, keep_)
+                inl = [xbi for xbi, xt in ib.calls() if callee_def(xt) == fn.name]
+                if inl and all(under(ib, xbi) for xbi in inl):
+                    continue
+                g = db.root_of(cb)
+                if depth < 3 and g.name != fn.name and g.name not in db.reachable_fns and fn_under(g, depth + 1) is None:
+                    continue
+                return "%s is called at %s where %s(%s) is not known to have answered Some" % (short(fn.name), cb.loc(cbi), lem["selector"], lem["const"])
+            return None
+        return fn_under(f, 0)
     if kind == "const-args":
         t = b.blocks[s["bi"]]["term"]
         for a in t["args"]:
